@@ -6,6 +6,7 @@ import (
 	"net"
 	"os"
 	"runtime"
+	"runtime/debug"
 	"strings"
 	"sync"
 	"sync/atomic"
@@ -126,6 +127,10 @@ func runScenarioT(sc scenario) ([]phaseRec, string, timing) {
 	lastAborted = ""
 	t := stM{maxc: 0, amax: amax}
 	if sc.maxc >= 0 {
+		// no garbage collection while a server runs: a connection the accept loop merely drops would otherwise be
+		// closed by its finalizer some time later and pass for "closed on accept"
+		oldGC := debug.SetGCPercent(-1)
+		defer debug.SetGCPercent(oldGC)
 		t.maxc = sc.maxc
 		if err := w.startServer(int32(sc.maxc)); err != nil {
 			panic(fmt.Sprintf("c16: cannot start the server: %v", err))
